@@ -95,6 +95,13 @@ Qed.
 Lemma unique1_wf (a : arr T) r : unique1 ltb eqb a = Ok r -> wf r.
 Proof. apply new_wf. Qed.
 
+Lemma unique_arr_wf (a : arr T) axis r : unique_arr ltb eqb dflt a axis = Ok r -> wf r.
+Proof.
+  unfold unique_arr. destruct axis; intros H.
+  - inv_bind H. now apply apply_along_axis_wf in H.
+  - now apply unique1_wf in H.
+Qed.
+
 Lemma apply_triangular_wf (a : arr T) k drop r : wf a -> apply_triangular zero a k drop = Ok r -> wf r.
 Proof.
   intros W. unfold apply_triangular. destruct (_ <? 2); [discriminate|]. destruct (is_empty a); [now intros [= <-]|]. apply new_wf.
@@ -139,7 +146,7 @@ Proof.
   - inv_bind H. eapply vsplit_wf; [|exact H]. eauto using operand_wf.
   - inv_bind H. eapply dsplit_wf; [|exact H]. eauto using operand_wf.
   - fone H. inv_bind E. now apply sort_arr_wf in E.
-  - fone H. inv_bind E. now apply unique1_wf in E.
+  - fone H. inv_bind E. now apply unique_arr_wf in E.
   - fone H. inv_bind E. now apply apply_along_axis_wf in E.
   - fone H. inv_bind E. now apply reduce_wf in E.
   - fone H. inv_bind E. now apply scan_wf in E.
